@@ -206,6 +206,12 @@ def _(c):
         kep0 = orb.copy(form="keplerian_mean")
         kep1 = res.copy(form="keplerian_mean")
         c.ensure("elements_kept", bool(np.allclose(np.asarray(kep0[:3], dtype=float), np.asarray(kep1[:3], dtype=float), rtol=1e-8)))
+        # over hundreds of revolutions: the mean anomaly has advanced by n * dt (2e-9 rad: the unchanged code stays below 1e-9 over +-30 d)
+        # and the position agrees with the independent solution to millimetres, not only to 1e-6
+        n_ = math.sqrt(mu / float(kep0[0]) ** 3)
+        dM = (float(kep1[5]) - float(kep0[5]) - n_ * dt + math.pi) % (2 * math.pi) - math.pi
+        c.ensure("mean_anomaly_advanced_by_n_dt", bool(abs(dM) <= 2e-9))
+        c.ensure("position_mm", bool(np.linalg.norm(np.asarray(res[:3], dtype=float) - rr) <= 2e-3 + 1e-10 * scale))
 
 
 def _grid_j2(tier, rng):
